@@ -47,7 +47,7 @@ RULE = (
     "pre-existing or not; non-trivial = the history has >=2 constructions and a construction that follows an "
     "equal/older-mtime source modification or a magic-number replacement; distinct by history fingerprint. "
     "(iii) case = (n in 2..8, state, template kind incl. a 300 kB one, stagger, repetition); every race is counted "
-    "non-trivial (>=2 processes, rewrite due) and distinct by (n, state, kind, stagger, repetition index)."
+    "non-trivial (>=2 processes, rewrite due) and distinct by (n, state, kind, stagger, depth, repetition index)."
 )
 ASSUMPTIONS = [
     "mtimes are whole seconds (os.stat()[ST_MTIME] truncates; sub-second ordering is outside the statement as read "
@@ -833,20 +833,21 @@ def check_race(scene, n, stagger, case):
 
 
 def shard_races(task):
-    n, state, kind, stagger, reps = task
+    n, state, kind, stagger, depth, reps = task
     warm()
     ev = core.Evidence()
     fails = {}
-    case = {"part": "iii", "n": n, "state": state, "kind": kind, "stagger": stagger, "reps": reps}
+    case = {"part": "iii", "n": n, "state": state, "kind": kind, "stagger": stagger, "depth": depth, "reps": reps}
     with core.TempDir() as root:
         try:
-            scene = Scene(root, kind, 1, state, "iii")
+            scene = Scene(root, kind, depth, state, "iii")
             counting_run(scene, False)
         except Failure as f:
             ev.case(key=("iii-setup", n, state, kind), nontrivial=False, labels=("ii:fault-free-run-wrong",))
             return ev, [f]
         for rep in range(reps):
-            labels = ["part:iii", "iii:n=%d" % n, "iii:state:" + state, "iii:kind:" + kind, "iii:stagger=%d" % stagger]
+            labels = ["part:iii", "iii:n=%d" % n, "iii:state:" + state, "iii:kind:" + kind, "iii:stagger=%d" % stagger,
+                      "iii:depth=%d" % depth]
             try:
                 check_race(scene, n, stagger, case)
             except Failure as f:
@@ -910,12 +911,21 @@ def fault_tasks(quick):
 
 
 def race_tasks(quick):
+    """(n, state, kind, stagger, depth, reps).  The directory-creation race (state nodir) has a window of a few
+    microseconds between os.path.exists and os.makedirs; it gets a deeper directory chain (more mkdir steps to
+    collide on) and more repetitions of the cheap template."""
     tasks = []
-    reps = 2 if quick else 30
     for n in range(2, 9):
         for state in STATES:
-            for kind, stagger in (("plain", 0), ("big", 0), ("big", 1)) if not quick else (("plain", 0), ("big", n % 2)):
-                tasks.append((n, state, kind, stagger, reps))
+            if quick:
+                tasks.append((n, state, "plain", 0, 1, 2))
+                tasks.append((n, state, "big", n % 2, 1, 2))
+            else:
+                tasks.append((n, state, "plain", 0, 1, 30))
+                tasks.append((n, state, "big", 0, 1, 30))
+                tasks.append((n, state, "big", 1, 1, 30))
+        tasks.append((n, "nodir", "plain", 0, 3, 12 if quick else 120))
+        tasks.append((n, "nodir", "plain", 0, 2, 12 if quick else 120))
     return tasks
 
 
@@ -969,9 +979,9 @@ def replay(case):
                                    True, case)
         elif part == "iii":
             with core.TempDir() as root:
-                scene = Scene(root, case["kind"], 1, case["state"], "rp")
+                scene = Scene(root, case["kind"], case.get("depth", 1), case["state"], "rp")
                 counting_run(scene, False)
-                for _ in range(max(40, case.get("reps", 1) * 10)):
+                for _ in range(min(400, max(60, case.get("reps", 1) * 10))):
                     check_race(scene, case["n"], case.get("stagger", 0), case)
         else:
             raise HarnessError("unknown replay part %r" % (part,))
